@@ -394,7 +394,7 @@ where
     fn first_byte(&mut self) -> Result<Option<(usize, usize, u8)>, Error> {
         let mut line_num = 0;
 
-        while fill_buf(&mut self.buf_reader)? > 0 {
+        while self.fill_buf()? > 0 {
             let mut pos = 0;
             let mut last_line_len = 0;
             for line in self.get_buf().split(|b| *b == b'\n') {
@@ -420,6 +420,21 @@ where
     #[inline]
     fn get_buf(&self) -> &[u8] {
         self.buf_reader.buffer()
+    }
+
+    // Fills the buffer (see `fill_buf`). After an I/O error, the buffer is only
+    // partly filled, which the parser cannot tell apart from the end of the input.
+    // Therefore, the buffer is discarded and nothing more is read until the next `seek()`.
+    fn fill_buf(&mut self) -> Result<usize, Error> {
+        match fill_buf(&mut self.buf_reader) {
+            Ok(n) => Ok(n),
+            Err(e) => {
+                self.state = State::Finished;
+                let n = self.get_buf().len();
+                self.buf_reader.consume(n);
+                Err(Error::from(e))
+            }
+        }
     }
 
     // Sets starting points for next position
@@ -496,7 +511,7 @@ where
             }
 
             // fill up remaining buffer
-            fill_buf(&mut self.buf_reader)?;
+            self.fill_buf()?;
 
             if self.search()? {
                 return Ok(true);
@@ -662,7 +677,7 @@ where
         self.state = State::Positioned;
         self.search_pos = 0;
         self.buf_pos.reset(0);
-        fill_buf(&mut self.buf_reader)?;
+        self.fill_buf()?;
         Ok(())
     }
 }
